@@ -32,6 +32,15 @@ from .tensor import (Interp, Unsupported, _BoundMethod, _Builtin, _Closure, _Mod
 FD = "finitedifference.py"
 
 
+# the public operators that the rules judge one by one: a call of one of them from another stays
+# symbolic; any *other* function or method of the module (private or newly added) is executed
+JUDGED = {"fd_map", "map1", "map2", "map3", "d3", "d3x", "d3y", "d3z", "d3_onesided",
+          "d3_periodic", "d3_symmetric", "d3_scalar", "cartesian_to_spherical",
+          "spherical_to_cartesian", "cutoffmask", "cutoffmask2", "excision"} | {
+    f"fd{p}_{r}" for p in (2, 4, 6, 8) for r in ("backward", "centered", "forward")} | {
+    f"d3{ax}_rank{n}tensor" for ax in ("", "x", "y", "z") for n in (1, 2, 3)}
+
+
 class SymbolicBranch(Unsupported):
     """A branch whose test depends on a symbolic value."""
 
@@ -132,6 +141,7 @@ class FDPE(Interp):
         self.symloops = []
         self.asked = []
         self.ranks = {}              # term -> number of array dimensions, where known
+        self.call_overrides = {}     # dotted callee name -> function(args, kwargs)
         self.functions = sources.functions(rel)
 
     # -- entry -----------------------------------------------------------------------------
@@ -203,9 +213,16 @@ class FDPE(Interp):
             return Sym(("getattr", obj.t, name))
         return super().get_attribute(obj, name, default, node)
 
+    def ev_Constant(self, node, env):
+        if isinstance(node.value, complex):
+            return Sym(("const", node.value))
+        return super().ev_Constant(node, env)
+
     def ev_Subscript(self, node, env):
         base = self.ev(node.value, env)
         sl = node.slice
+        if isinstance(base, _Module) and base.name == "self":
+            return Sym(("key", to_term(self.ev(sl, env))))
         if isinstance(base, Sym):
             if isinstance(sl, ast.Slice):
                 lo = to_term(self.ev(sl.lower, env)) if sl.lower is not None else None
@@ -513,6 +530,8 @@ class FDPE(Interp):
     def dispatch_call(self, node, fsrc, args, kwargs, env):
         if fsrc in ("print", "warnings.warn"):
             return None
+        if fsrc in self.call_overrides:
+            return self.call_overrides[fsrc](args, kwargs)
         if fsrc.startswith("self.") and fsrc.count(".") == 1:
             return self.method_call(fsrc[5:], args, kwargs, node)
         if fsrc.startswith("np.") or fsrc.startswith("numpy."):
@@ -524,7 +543,7 @@ class FDPE(Interp):
         if isinstance(node.func, ast.Name) and node.func.id not in env \
                 and node.func.id in self.functions:
             name = node.func.id
-            if name.startswith("_") or name in self.inline:
+            if name not in JUDGED or name in self.inline:
                 fn = self.functions[name]
                 return self.call_function(fn, args, kwargs, name, False, rel=self.rel)
             return Sym(("call", ("global", name), tuple(to_term(a) for a in args)))
@@ -565,12 +584,17 @@ class FDPE(Interp):
         if isinstance(f, _Module) and f.name.startswith("np."):
             return self.np_call(f.name[3:], args, kwargs, node)
         if isinstance(f, _Closure) and isinstance(f.fn, ast.FunctionDef) and f.env is None \
-                and not f.name.startswith("_") and f.name not in self.inline:
+                and f.name in JUDGED and f.name not in self.inline:
             if f.name == "fd_map":
                 return Sym(("fd_map", tuple(to_term(a) for a in args)))
             return Sym(("call", ("global", f.name), tuple(to_term(a) for a in args)))
         if isinstance(f, _BoundMethod) and isinstance(f.obj, str) and f.attr == "format":
             return "<formatted>"
+        if fsrc in self.call_overrides:
+            return self.call_overrides[fsrc](args, kwargs)
+        if isinstance(f, _Module) and "." in f.name and not f.name.startswith("self."):
+            extra = tuple(("kw", k, to_term(v)) for k, v in sorted(kwargs.items()))
+            return Sym(("call", ("global", f.name), tuple(to_term(a) for a in args) + extra))
         return super().dispatch_call(node, fsrc, args, kwargs, env)
 
     def method_call(self, name, args, kwargs, node):
@@ -582,7 +606,7 @@ class FDPE(Interp):
             if isinstance(v, _Closure):
                 return Sym(("call", to_term(v), tuple(to_term(a) for a in args)))
             raise Unsupported("call of self." + name)
-        if name.startswith("_") or name in self.inline:
+        if name not in JUDGED or name in self.inline:
             return self.call_function(fn, args, kwargs, name, True, rel=self.rel)
         extra = tuple(("kw", k, to_term(v)) for k, v in sorted(kwargs.items()))
         return Sym(("mcall", name, tuple(to_term(a) for a in args) + extra))
